@@ -163,7 +163,11 @@ class OrientedLine:
 
   def __validate_line(self):
     if isinstance(self.line, gfapy.Line):
-      string = self.line.name
+      string = getattr(self.line, "name", None)
+      if not isinstance(string, str):
+        raise gfapy.ValueError(
+          "The line reference ({}) is a line without a name"
+          .format(repr(self.line)))
     elif isinstance(self.line, str):
       string = self.line
     else:
